@@ -9,7 +9,7 @@ res = {}
 for l in open(os.path.join(HERE, "seeded", "RESULTS.txt")):
     parts = l.split()
     if len(parts) >= 3 and parts[2].startswith("rc="):
-        res[parts[0]] = (parts[2], parts[3:])
+        res[parts[0]] = (parts[2], parts[3:], parts[1])
 rows = []
 for d in sorted(os.listdir(os.path.join(HERE, "seeded"))):
     mp = os.path.join(HERE, "seeded", d, "meta.json")
@@ -19,9 +19,12 @@ for d in sorted(os.listdir(os.path.join(HERE, "seeded"))):
     summ = m["summary"].replace("|", "/").replace("\n", " ")
     if len(summ) > 170:
         summ = summ[:167] + "..."
-    rc, cls = res.get(d, ("not swept", []))
-    rows.append("| %s | %s | %s | %s |" % (d, summ, "caught" if rc == "rc=1" else rc, "<br>".join("`%s`" % c for c in cls[:3])))
-table = ("| id | change (sub-agent's summary) | quick check of its property | violation classes reported (first three) |\n|---|---|---|---|\n"
+    rc, cls, chk = res.get(d, ("not swept", [], None))
+    verdict = "caught" if rc == "rc=1" else rc
+    if chk and chk != d.split("-")[0] and rc == "rc=1":
+        verdict = "caught by the %s check (see meta.json)" % chk
+    rows.append("| %s | %s | %s | %s |" % (d, summ, verdict, "<br>".join("`%s`" % c for c in cls[:3])))
+table = ("| id | change (sub-agent's summary) | quick check of its property (or of the property named) | violation classes reported (first three) |\n|---|---|---|---|\n"
          + "\n".join(rows) + "\n")
 p = os.path.join(HERE, "DESIGN.md")
 s = open(p).read()
